@@ -38,6 +38,7 @@ def roundtrip(bounds, blocked, api):
         def rp():
             return {'kind': 'roundtrip', 'args': {'lengths': [ev(n) for n in ns], 'blocked': blocked, 'api': api,
                                                  'records': [concretize(r, ev) for r in recs]}}
+        core.set_fallback(rp, 'C03/concretised')
         if api == 'class':
             f = RopeFile()
             w = m.VbsWriter(f, blocked=blocked)
@@ -84,6 +85,7 @@ def default_reader(nmax):
 
         def rp():
             return {'kind': 'default_reader', 'args': {'record': concretize(rec, ev)}}
+        core.set_fallback(rp, 'C03/concretised')
         data = m.vbs_list_to_bytes([rec])
         with guard('vbs_bytes_to_list', 'C03/default-reader', rp, allow=(m.MciIpmDataError,)):
             try:
@@ -106,6 +108,7 @@ def configured_max(newmax, blocked):
         n = sym_int('len0', 1, newmax)
         rec = Source('rec0', 'b', n).rope()
         rp = {'kind': 'configured_max', 'args': {'newmax': newmax, 'blocked': blocked, 'length': ev(n)}}
+        core.set_fallback(rp, 'C03/concretised')
         cfg['MAX_VBS_RECORD_LENGTH'] = newmax
         try:
             f = RopeFile()
